@@ -755,6 +755,15 @@ func (env *SpecEnv) evalBinary(x *ast.BinaryExpr) TV {
 			if tt == nil {
 				tt = b.T
 			}
+			// interface == concrete value: box the concrete side
+			if _, ai := a.V.(IfaceV); ai {
+				if _, bi := b.V.(IfaceV); !bi && b.T != nil {
+					b = TV{env.ex.makeIface(env.st, b.V, b.T), a.T}
+				}
+			} else if _, bi := b.V.(IfaceV); bi && a.T != nil {
+				a = TV{env.ex.makeIface(env.st, a.V, a.T), b.T}
+				tt = b.T
+			}
 			env.ex.specEq = true
 			t = env.ex.valuesEqual(env.st, a.V, b.V, tt)
 			env.ex.specEq = false
